@@ -400,10 +400,10 @@ func (x *Explorer) applyContract(st *State, f *Frame, con *Contract, allArgs []V
 	env.callK = int64(refBase + x.nextRef)
 	// preconditions
 	for _, cl := range con.Requires {
-		env.goal = true
-		g := env.evalBool(cl.Expr)
-		x.emit(st, "pre", cl.Label, site, g, cl.Where)
-		st.assume(g)
+		if g, ok := x.goalOf(st, env, cl, "pre", site); ok {
+			x.emit(st, "pre", cl.Label, site, g, cl.Where)
+			st.assume(g)
+		}
 	}
 	// frame
 	old := make(map[string]*Term, len(st.heap))
